@@ -16,7 +16,9 @@ Round 2 additions (all optional, the former API is unchanged):
   * events passed to replace / replace_last may carry an id of their own (any handle kind);
   * object identity: a symbolic event may carry a 5th element ["obj", "passed"|"got", k] = "pass the
     very Event OBJECT that was passed to / returned by an earlier call of this run" (no fresh copy); its
-    value at the time of the call is what the wire op (and so the model, which has no aliasing) sees."""
+    value at the time of the call is what the wire op (and so the model, which has no aliasing) sees;
+  * ["touch", ["obj", ...], field, value]: the caller changes such an object IN PLACE between two calls
+    (data dict mutated, timestamp / duration / id assigned) - no operation, so no bucket may change."""
 import multiprocessing
 import os
 import shutil
@@ -38,7 +40,12 @@ HOUR = 3600 * SEC
 
 OPCODE = {"create": 0, "update": 1, "delete_bucket": 2, "buckets": 3, "metadata": 4, "insert": 5,
           "insert_many": 6, "replace": 7, "replace_last": 8, "delete": 9, "get_event": 10, "get": 11,
-          "count": 12}
+          "count": 12,
+          # not a call at all: the CALLER changes, in place, an Event object it passed to / got from the
+          # store earlier ([13, field, value]; which object: run["objs"][j]).  Never sent to the model (its
+          # state does not depend on the caller's objects): run_model_batch leaves the state as it is.
+          "touch": 13}
+TOUCH_FIELDS = ["data", "timestamp", "duration", "id"]
 OPNAME = {v: k for k, v in OPCODE.items()}
 WRITE_CODES = {0, 1, 2, 5, 6, 7, 8, 9}
 
@@ -291,6 +298,19 @@ def apply_op(st, op, args=None, keep=None):
             _, b, s, e = op
             s, e = unopt(s), unopt(e)
             r = st.get_eventcount(s_of(b), None if s is None else dt(s), None if e is None else dt(e))
+        elif code == 13:
+            o, field, v = args[0], TOUCH_FIELDS[op[1]], op[2]
+            if field == "data":
+                d = o.data              # the dict the caller holds: changed in place, not replaced
+                d.clear()
+                d.update(data_of(v))
+            elif field == "timestamp":
+                o.timestamp = dt(v)
+            elif field == "duration":
+                o.duration = timedelta(microseconds=v)
+            else:
+                o.id = v
+            r = None
         else:
             raise RuntimeError("bad op")
     except Exception as ex:  # noqa: BLE001 -- the error class is the observation
@@ -381,6 +401,11 @@ def concretise_objs(op, univ, views, seen, held=None):
 
     def done(wire):
         return wire, args, prov
+    if name == "touch":
+        got = pick_object(op[1], held) if held is not None else None
+        if got is None:
+            return None
+        return [code, TOUCH_FIELDS.index(op[2]), op[3]], [got[1]], [got[0]]
     if name == "create":
         ty, cl, ho, cr, na, da = op[2]
         return done([code, op[1], [ty, cl, ho, cr, opt(na), da]])
@@ -548,10 +573,29 @@ def canon_step(step):
 def run_model_batch(prop, runs):
     """runs: list of (backend, universe, concrete ops[, layer]) -> list of per-op canonical steps.
     Layer "datastore" needs the two-layer driver (Extract/ExC02ds.v): case tag 30."""
-    cases = [common.sx(([30] if len(r) > 3 and r[3] == "datastore" else []) + [BACKEND_CODE[r[0]], r[1], r[2]])
+    cases = [common.sx(([30] if len(r) > 3 and r[3] == "datastore" else [])
+                       + [BACKEND_CODE[r[0]], r[1], [o for o in r[2] if o[0] != 13]])
              for r in runs]
     outs = common.run_driver(prop, cases)
-    return [[canon_step(s) for s in o] if o != [-999] else None for o in outs]
+    res = []
+    for r, o in zip(runs, outs):
+        if o == [-999]:
+            res.append(None)
+            continue
+        steps = [canon_step(s) for s in o]
+        if any(op[0] == 13 for op in r[2]):
+            # a caller touching its own object is no step of the model: result None, state as it was
+            it, full, views = iter(steps), [], [[] for _ in r[1]]
+            for op in r[2]:
+                if op[0] == 13:
+                    full.append([[0, [0]]] + views)
+                else:
+                    st = next(it)
+                    views = st[1:]
+                    full.append(st)
+            steps = full
+        res.append(steps)
+    return res
 
 
 def first_difference(model_steps, run):
@@ -709,6 +753,15 @@ def gen_history(rng, malformed, max_ops=40, reuse=0.0):
                     ops.append(["create", b, rnd_meta(rng, falsy=malformed)])
                     exists.add(b)
                     count[b] = 0
+        # the caller goes on using an object it passed / got: changes it in place (no operation at all)
+        if reuse and ops and ops[-1][0] in ("insert", "insert_many", "replace", "replace_last", "get", "get_event") \
+                and rng.random() < reuse / 2:
+            f = rng.choice(TOUCH_FIELDS + ["data"])
+            v = {"data": rng.randrange(0, 6), "timestamp": BASE + rng.choice(pool) * SEC + 1000,
+                 "duration": rng.choice(DURS), "id": rng.randrange(0, 8)}[f]
+            ops.append(["touch", ["obj", rng.choice(["passed", "passed", "got"]), rng.randrange(0, 3)], f, v])
+            b_dump = rng.choice(sorted(exists)) if exists else b
+            ops.append(["get", b_dump, -1, None, None])
         # reads straight after a write (a layer that keeps state of its own - a cached count, a
         # remembered last event - is stale exactly here), a quarter of the writes
         if ops and ops[-1][0] in ("insert", "insert_many", "replace", "delete", "update") and ops[-1][1] == b \
@@ -896,6 +949,34 @@ def reuse_histories():
     return out
 
 
+def touch_histories():
+    """Deterministic corpus: after every kind of write (insert, one-element bulk insert, bulk upsert, replace,
+    replace_last) the caller changes the object it passed - data dict in place, timestamp, duration, id -
+    and after every kind of read (limit 1, all, by id, result of insert) the object it got; each change is
+    followed by reads of both buckets.  Not one of these is an operation: nothing may change."""
+    out = []
+    m = [1, 1, 1, 0, None, 0]
+    univ = [1, 2, MISSING_BUCKET]
+    base = [["create", 1, m], ["create", 2, m]]
+    for k in range(2):
+        base += [["insert", 1, [None, BASE + k * SEC, SEC, k + 1]], ["insert", 2, [None, BASE + k * SEC, SEC, k + 1]]]
+    x = [None, BASE + 3 * SEC, 2 * SEC, 4]
+
+    def touches(src):
+        t = []
+        for f, v in (("data", 5), ("data", 0), ("timestamp", BASE + 8 * SEC), ("duration", 7 * SEC), ("id", 0), ("id", 1), ("id", 77)):
+            t += [["touch", ["obj", src, 0], f, v], ["get_event", 1, ["live", 0]], ["get", 2, 1, None, None]]
+        return t
+    for w in ([["insert", 1, x]], [["insert_many", 1, [x]]], [["insert_many", 1, [[["live", 1]] + x[1:]]]],
+              [["replace", 1, ["live", 0], x]], [["replace_last", 1, x]],
+              [["replace", 1, ["live", 1], [["live", 1]] + x[1:]]]):
+        out.append((base + w + touches("passed") + [["count", 1, None, None]], univ))
+    for r in ([["get", 1, 1, None, None]], [["get", 1, -1, None, None]], [["get_event", 1, ["live", 1]]],
+              [["insert", 1, x]], [["replace", 1, ["live", 0], x]]):
+        out.append((base + r + touches("got") + [["count", 1, None, None]], univ))
+    return out
+
+
 def quiet_histories(rng, n):
     """Histories whose tail runs WITHOUT intermediate reads (a read commits on sqlite, so with a dump
     after every op nothing is ever pending when a rejected call arrives): set-up with dumps, then
@@ -937,6 +1018,8 @@ def quiet_histories(rng, n):
 
 
 def describe(op):
+    if op[0] == 13:
+        return f"touch[caller sets .{TOUCH_FIELDS[op[1]]} of an Event object it holds := {op[2]}]"
     return OPNAME[op[0]] + str(op[1:])
 
 
